@@ -344,6 +344,10 @@ class World:
         self.steps = 0
         self.violations = []            # (check, description)
         self.skipped = 0
+        # False once a peer stops following the protocol (unilateral abort, cancelled call, foreign
+        # frames): the peer may then reuse a CID it still has open here, and the table filed by the
+        # peer's CIDs can only hold one of the two channels
+        self.cooperative = True
 
     async def settle(self):
         for _ in range(SETTLE):
@@ -401,6 +405,8 @@ class World:
         """apply one world-level op; ops that do not make sense in the current state are skipped"""
         k = op[0]
         self.steps += 1
+        if k in ('abort', 'cancel', 'inject'):
+            self.cooperative = False
         if k == 'open':
             _, m, h, kind, psm, n, mode = op
             w = self.nw[m]
@@ -528,11 +534,8 @@ class World:
                 if le_open(c):
                     if m.channels.get(h, {}).get(c.source_cid) is not c:
                         bad.append(('missing-channels', f'{name(c)} is {c.state.name} but not in channels[{h}][{c.source_cid}]'))
-                    if c not in m.le_coc_channels.get(h, {}).values():
+                    if self.cooperative and c not in m.le_coc_channels.get(h, {}).values():
                         bad.append(('missing-le_coc', f'{name(c)} is {c.state.name} but not in le_coc_channels[{h}]'))
-                    if (h, c.destination_cid) in dcids:
-                        bad.append(('dup-dcid', f'{name(c)} and {dcids[(h, c.destination_cid)]} share destination cid'))
-                    dcids[(h, c.destination_cid)] = name(c)
                 if isinstance(c, l2cap.ClassicChannel) and c.state == CS.OPEN:
                     if m.channels.get(h, {}).get(c.source_cid) is not c:
                         bad.append(('missing-channels', f'{name(c)} is OPEN but not in channels[{h}][{c.source_cid}]'))
@@ -572,3 +575,201 @@ class World:
         for b in bad:
             self.violations.append((b[0] + ':' + opname, b[1]))
         return bad
+
+
+# ----------------------------------------------------------------------------- topologies and generation
+CFG_CENTRAL = {'le': [0x80], 'cl': [[0x1001, 0]]}
+CFG_PERIPH = {'le': [0x80, 0x81], 'cl': [[0x1001, 0], [0x1003, 3]]}
+TOPOLOGIES = {
+    # name: (manager configs, links)
+    'pair': ([CFG_CENTRAL, CFG_PERIPH], [[0, 1, 1, 5]]),
+    'star': ([CFG_CENTRAL, CFG_PERIPH, CFG_PERIPH], [[0, 1, 1, 5], [0, 2, 2, 5]]),
+    'foreign': ([CFG_PERIPH], [[0, 1, -1, 0], [0, 2, -1, 0]]),
+}
+
+
+def _ends(links):
+    out = []
+    for l, (mi, hi, mj, hj) in enumerate(links):
+        out.append((mi, hi, l))
+        if mj >= 0:
+            out.append((mj, hj, l))
+    return out
+
+
+def gen_open(rng, ends):
+    m, h, _ = rng.choice(ends)
+    kind = rng.choice([KIND_LE] * 9 + [KIND_ENH] * 4 + [KIND_CL] * 7)
+    if kind == KIND_CL:
+        psm = rng.choice([0x1001] * 6 + [0x1003] * 2 + [0x1005])
+        mode = rng.choice([0] * 5 + [3])
+        n = 1
+    else:
+        psm = rng.choice([0x80] * 6 + [0x81] * 2 + [0x90])
+        mode = 0
+        n = rng.choice([1, 2, 2, 3, 5]) if kind == KIND_ENH else 1
+        if kind == KIND_ENH and rng.chance(1, 25):
+            n = 0
+    return ['open', m, h, kind, psm, n, mode]
+
+
+def gen_foreign_frame(rng, M, h):
+    """a signalling frame from a foreign peer: mostly plausible (answers to what the manager sent,
+    requests with fresh or clashing CIDs), sometimes unsolicited"""
+    sent = [f for out in M.outs for f in out]
+    reqs = [f for f in sent if f[0] in ('LeReq', 'EnhReq', 'ConnReq', 'DiscReq', 'ConfReq')]
+    peer_cid = rng.choice([0x40, 0x41, 0x42, 0x50, 0x51, 0x7F])
+    r = rng.below(100)
+    if r < 40 and reqs:
+        q = rng.choice(reqs[-4:])
+        if q[0] == 'LeReq':
+            return ['LeRsp', q[1], peer_cid, rng.choice([0, 1, 5]), rng.choice([0] * 4 + [2, 4])]
+        if q[0] == 'EnhReq':
+            res = rng.choice([0] * 4 + [2, 4])
+            n = len(q[4])
+            return ['EnhRsp', q[1], rng.choice([0, 1, 5]), res,
+                    [0x60 + i for i in range(n)] if res == 0 else []]
+        if q[0] == 'ConnReq':
+            return ['ConnRsp', q[1], peer_cid, q[3], rng.choice([0] * 4 + [1, 2, 4])]
+        if q[0] == 'DiscReq':
+            return ['DiscRsp', q[1], q[2], q[3]]
+        return ['ConfRsp', q[1], q[3] if False else rng.choice([0x40, 0x41]), rng.choice([0] * 5 + [2, 3])]
+    if r < 55:
+        return ['LeReq', rng.range(1, 255), rng.choice([0x80, 0x80, 0x81, 0x90]), peer_cid, rng.choice([0, 1, 4])]
+    if r < 65:
+        k = rng.choice([1, 2, 3])
+        base = rng.choice([0x40, 0x50, 0x60])
+        return ['EnhReq', rng.range(1, 255), rng.choice([0x80, 0x80, 0x90]), rng.choice([0, 2]),
+                [base + i for i in range(k)]]
+    if r < 75:
+        return ['ConnReq', rng.range(1, 255), rng.choice([0x1001, 0x1001, 0x1003, 0x1005]), peer_cid]
+    local = rng.choice([0x40, 0x41, 0x42, 0x43])
+    if r < 83:
+        return ['ConfReq', rng.range(1, 255), local, rng.choice([-1, -1, 0, 3]), rng.chance(1, 6)]
+    if r < 88:
+        return ['ConfRsp', rng.range(1, 255), local, rng.choice([0] * 5 + [2, 3])]
+    if r < 94:
+        return ['DiscReq', rng.range(1, 255), local, peer_cid]
+    if r < 97:
+        return ['DiscRsp', rng.range(1, 255), peer_cid, local]
+    return ['Credit', rng.range(1, 255), peer_cid, rng.choice([1, 3, 100])]
+
+
+async def gen_and_run(rng, topo, length, allow_abort=True, allow_cancel=True, down_weight=8):
+    """generate a history online (choices depend only on counts visible in the world) and run it;
+    returns (world, ops).  The op list alone replays the run."""
+    cfgs, links = TOPOLOGIES[topo]
+    w = World(cfgs, links)
+    ends = _ends(links)
+    ops = []
+    foreign = any(l[2] < 0 for l in links)
+    for _ in range(length):
+        r = rng.below(100)
+        op = None
+        busy = [k for k in sorted(w.queues) if w.queues[k]]
+        if r < 22:
+            op = gen_open(rng, ends)
+        elif r < 50:
+            if foreign:
+                m, h, _l = rng.choice(ends)
+                op = ['inject', m, h, gen_foreign_frame(rng, w.mgrs[m], h)]
+            elif busy:
+                op = ['deliver', *rng.choice(busy)]
+            else:
+                op = gen_open(rng, ends)
+        elif r < 56:
+            op = ['flush']
+        elif r < 72:
+            m = rng.choice(ends)[0]
+            n = len(w.mgrs[m].chans)
+            if n:
+                op = ['close', m, rng.below(n)]
+        elif r < 76:
+            m = rng.choice(ends)[0]
+            n = len(w.mgrs[m].chans)
+            if n and allow_abort:
+                op = ['abort', m, rng.below(n)]
+        elif r < 84:
+            m = rng.choice(ends)[0]
+            n = len(w.mgrs[m].chans)
+            if n:
+                op = ['write', m, rng.below(n), rng.choice([1, 2, 4])]
+        elif r < 87:
+            m = rng.choice(ends)[0]
+            n = len(w.mgrs[m].chans)
+            if n:
+                op = ['grant', m, rng.below(n), rng.choice([1, 2, 50])]
+        elif r < 87 + down_weight:
+            op = ['down', rng.below(len(links))]
+        elif allow_cancel:
+            m = rng.choice(ends)[0]
+            if w.nw[m]:
+                op = ['cancel', m, rng.below(w.nw[m])]
+        if op is None:
+            op = ['flush'] if not foreign else gen_open(rng, ends)
+        ops.append(op)
+        await w.apply(op)
+        w.check(op[0])
+    return w, ops
+
+
+async def run_ops(topo, ops, check=True):
+    cfgs, links = TOPOLOGIES[topo]
+    w = World(cfgs, links)
+    for op in ops:
+        await w.apply(op)
+        if check:
+            w.check(op[0])
+    return w
+
+
+def audit_eligible(topo, ops):
+    return topo != 'foreign' and not any(o[0] in ('abort', 'cancel', 'inject') for o in ops)
+
+
+async def audit(w, topo, ops):
+    """End of a history in which both ends of every link are real managers and nobody aborted
+    unilaterally: (1) everything in flight is delivered, (2) a new channel of every kind is opened in
+    both directions and must succeed (identifiers are reusable), (3) every open channel is closed and
+    every table must then be empty and every awaited call finished."""
+    from bumble import l2cap
+    cfgs, links = TOPOLOGIES[topo]
+    extra = [['flush']]
+    probes = []
+    for l, (mi, hi, mj, hj) in enumerate(links):
+        extra += [['open', mi, hi, KIND_LE, 0x80, 1, 0], ['open', mj, hj, KIND_CL, 0x1001, 1, 0],
+                  ['open', mi, hi, KIND_ENH, 0x80, 2, 0], ['open', mj, hj, KIND_LE, 0x80, 1, 0]]
+    for op in extra:
+        if op[0] == 'open':
+            probes.append((op[1], w.nw[op[1]], op))
+        await w.apply(op)
+        w.check('audit-' + op[0])
+    await w.apply(['flush'])
+    extra.append(['flush'])
+    for m, wid, op in probes:
+        o = _outcome(w.mgrs[m].tasks[wid])
+        if o != OUTCOME_RESULT:
+            w.violations.append(('reopen-failed:' + ['le', 'enh', 'classic'][op[3]],
+                                 f'mgr{m}: opening a new channel {op} after the history did not succeed (outcome {o})'))
+    closes = []
+    LS = l2cap.LeCreditBasedChannel.State
+    CS = l2cap.ClassicChannel.State
+    for l, (mi, hi, mj, hj) in enumerate(links):
+        M = w.mgrs[mi]
+        for uid, c in enumerate(M.chans):
+            if M.conns.get(c.connection.handle) is c.connection and c.connection.handle == hi and \
+                    c.state in (LS.CONNECTED, CS.OPEN):
+                closes.append(['close', mi, uid])
+    for op in closes + [['flush']]:
+        await w.apply(op)
+        w.check('audit-' + op[0])
+        extra.append(op)
+    for mi, M in enumerate(w.mgrs):
+        o = M.obs()
+        for t in ('channels', 'le', 'reqs', 'pend'):
+            if o[t]:
+                w.violations.append((f'leak-{t}:audit', f'mgr{mi}: {t} = {o[t]} after every channel was closed'))
+        for wid, oc in o['waiters']:
+            if oc == OUTCOME_PENDING:
+                w.violations.append(('waiter-pending:audit', f'mgr{mi}: awaited call #{wid} still pending after every channel was closed'))
+    return extra
